@@ -27,6 +27,7 @@ type cfg struct {
 	cliAllow  bool   // client side AllowWaitingForTrust
 	ids       string // which side knows the peer's SHIP ID: none | client | server | both
 	arbitrary bool   // timers may fire at any point
+	cliCancel bool   // the client side's user may cancel while the client waits for the server's hello
 }
 
 func (c cfg) name() string {
@@ -34,7 +35,11 @@ func (c cfg) name() string {
 	if c.arbitrary {
 		m = "arbitrary"
 	}
-	return fmt.Sprintf("%s/trust=%s/swait=%v/cwait=%v/ids=%s", m, c.trust, c.srvAllow, c.cliAllow, c.ids)
+	n := fmt.Sprintf("%s/trust=%s/swait=%v/cwait=%v/ids=%s", m, c.trust, c.srvAllow, c.cliAllow, c.ids)
+	if c.cliCancel {
+		n += "/clicancel"
+	}
+	return n
 }
 
 // trust eventually given on every path (no user decision needed)?
@@ -64,6 +69,7 @@ type world struct {
 	approved, cancelled bool
 	approvedHow string // early (before the hello phase) | pending (while the request was pending) | late
 	concurrent  bool   // stimuli were applied concurrently (a timer may have expired while a message was in flight)
+	cliCancel   bool   // the user on the client side cancelled while the client was waiting for the server's hello
 }
 
 const cliID, srvID = "ship-client", "ship-server"
@@ -201,6 +207,10 @@ func (w *world) enabled() []string {
 	if w.c.trust == "cancel" && !w.approved && !w.cancelled && w.srv.state() == model.SmeHelloStatePendingListen {
 		out = append(out, "CANCEL")
 	}
+	// the user on the client side withdraws while the client waits for the server (whatever the server's user does)
+	if w.c.cliCancel && !w.cancelled && w.cli.state() == model.SmeHelloStateReadyListen {
+		out = append(out, "CCANCEL")
+	}
 	ts := w.timers()
 	// arbitrary mode: a timer may fire while frames are still in flight, but at most 3 frames per
 	// direction are ever delayed at once (bounds the otherwise infinite queues)
@@ -251,6 +261,10 @@ func (w *world) apply(ev string) {
 	case ev == "CANCEL":
 		w.cancelled = true
 		simrt.Go("user", func() { w.srv.C.AbortPendingHandshake() })
+	case ev == "CCANCEL":
+		w.cancelled = true
+		w.cliCancel = true
+		simrt.Go("user", func() { w.cli.C.AbortPendingHandshake() })
 	case strings.HasPrefix(ev, "T"):
 		var k int
 		fmt.Sscanf(ev[1:], "%d", &k)
@@ -343,7 +357,7 @@ func (w *world) safety(ev string) {
 			simrt.Fail("C03|complete-without-trust", "an endpoint completed although the server side never trusted the client (cli=%s srv=%s)", shipx.StateName(w.cli.state()), shipx.StateName(w.srv.state()))
 		}
 	}
-	if w.cancelled && !w.approved && (w.cli.complete() || w.srv.complete()) {
+	if w.cancelled && (!w.approved || w.cliCancel) && (w.cli.complete() || w.srv.complete()) {
 		simrt.Fail("C03|complete-after-cancel", "an endpoint completed although the user cancelled the pairing")
 	}
 	// while the user has not decided, both sides allow waiting for trust and every message is timely, nobody
@@ -401,6 +415,10 @@ func configs(r *hx.Run) []cfg {
 							continue // waiting is irrelevant when trust is there from the start
 						}
 						out = append(out, cfg{trust: tr, srvAllow: sa, cliAllow: ca, ids: ids, arbitrary: arb})
+						// the same with a client-side user who may withdraw (timely mode, waiting allowed on both sides)
+						if !arb && sa && ca && ids == "none" && (tr == "paired" || tr == "approve" || r.Thorough()) {
+							out = append(out, cfg{trust: tr, srvAllow: sa, cliAllow: ca, ids: ids, arbitrary: arb, cliCancel: true})
+						}
 					}
 				}
 			}
@@ -500,8 +518,9 @@ func analyse(name string, c cfg, g *hx.Graph, classes map[string]string, fails *
 			}
 		case cl == "both-ended":
 			// both gave up: legal unless trust was there from the start in timely mode (then they must succeed)
-			ok = !(c.trusted() && !c.arbitrary)
-			if c.trust == "approve" && !c.arbitrary && c.srvAllow && c.cliAllow && (strings.Contains(g.Keys[v], "|how=pending") || strings.Contains(g.Keys[v], "|how=early")) {
+			cancelledBySomebody := strings.Contains(g.Keys[v], "|c=true")
+			ok = !(c.trusted() && !c.arbitrary) || cancelledBySomebody
+			if !cancelledBySomebody && c.trust == "approve" && !c.arbitrary && c.srvAllow && c.cliAllow && (strings.Contains(g.Keys[v], "|how=pending") || strings.Contains(g.Keys[v], "|how=early")) {
 				// approved while pending and everything timely: must succeed
 				ok = false
 			}
@@ -577,11 +596,12 @@ func main() {
 	// S part
 	specs := buildPairSpecs(r, cfgs, sum, ms)
 	hx.WriteJSON(specFile, specs)
+	r.EnsureBudget(60 * time.Second)
 	hx.SetWorkerMode("s")
 	scens := pairScenariosFromSpecs(cfgs, specs, pairBound(r))
 	ss := hx.ExploreAll(r, scens, false, 0)
 	for k := range ss.Found {
-		if !strings.HasPrefix(k, "C03|") && !strings.HasPrefix(k, "panic|") && !strings.HasPrefix(k, "engine|") {
+		if !strings.HasPrefix(k, "C03|") && !strings.HasPrefix(k, "panic|") && !hx.KeptKey(k) {
 			delete(ss.Found, k)
 		}
 	}
